@@ -56,6 +56,9 @@ def gen(rng, tier, index):
     K = int(rng.integers(3, 11)) if tier == "quick" else int(rng.integers(3, 26))
     plan = {"problem": spec, "cfg": cfg, "K": K, "_ints": ["K"]}
     plan["chain_seed"] = int(rng.integers(0, 2**31 - 1))
+    # a share of the plans runs with an evaluation budget that binds near a split: the restart must
+    # then see the same remaining budget as the uninterrupted run (identical arguments)
+    plan["tight_maxfun"] = int(rng.integers(1, 4)) if rng.random() < 0.3 else 0
     return plan
 
 
@@ -80,6 +83,16 @@ def execute(plan):
             % (spec["family"], spec["box"], spec["n"], cfg["maxcor"], cfg["eps_SY"], k, npairs, kind, verdict)
         )
 
+    if plan.get("tight_maxfun"):
+        sc = dict(cfg)
+        sc.update(maxiter=K + 2, callback={})
+        S0 = Act(problem, sc).run()
+        stats["activations"] += 1
+        nf = [r["snap"]["nfev"] for r in S0.states]
+        if len(nf) >= 2:
+            j = (plan["chain_seed"] % (len(nf) - 1)) + 1  # the budget runs out during iteration j+1
+            cfg["maxfun"] = int(nf[j - 1]) + int(plan["tight_maxfun"])
+            stats["probe.tight_maxfun_plan"] += 1
     # uninterrupted references R_j = run(maxiter=j)
     R = {}
     for j in range(1, K + 3):
